@@ -158,6 +158,7 @@ def replay(c):
 
 
 def run(rep):
+    tok.VALIDATE[0] = replay_fn
     L = thr.load()
     rep.hashes = L.hashes
     cfgs = BOUNDS[rep.tier]
